@@ -15,8 +15,19 @@ BIN = os.path.join(SIM, "target", "release", "mhsim")
 
 def sh(cmd, cwd=None, timeout=900):
     e = dict(os.environ, CARGO_NET_OFFLINE="true")
-    r = subprocess.run(cmd, cwd=cwd, shell=True, stdout=subprocess.PIPE, stderr=subprocess.STDOUT, text=True, timeout=timeout, env=e)
-    return r.returncode, r.stdout
+    # own process group, killed as a whole on timeout (a changed library may spin for ever)
+    p = subprocess.Popen(cmd, cwd=cwd, shell=True, stdout=subprocess.PIPE, stderr=subprocess.STDOUT, text=True, env=e, start_new_session=True)
+    try:
+        out, _ = p.communicate(timeout=timeout)
+        return p.returncode, out
+    except subprocess.TimeoutExpired:
+        import signal
+        try:
+            os.killpg(p.pid, signal.SIGKILL)
+        except ProcessLookupError:
+            pass
+        out, _ = p.communicate()
+        return 124, (out or "") + "\n[timed out after %s s; process group killed]" % timeout
 
 
 def confirm(wt, n):
